@@ -151,7 +151,7 @@ func (c *codecCtx) payloadCase(s codecSample, value []byte, what string) {
 	}
 	model, derr := c.drv.Ask("decode " + hx)
 	if derr != nil {
-		c.res.Note("driver: %v", derr)
+		c.res.Fatalf("driver: %v", derr)
 		return
 	}
 	got, err := c.reopen(frame(s.file, value))
@@ -305,7 +305,7 @@ func makeSample(root, name string, h uint64, e int, prune bool) (codecSample, er
 func runCodec(f lib.Flags, res *lib.Result, shard, shards int, root string) {
 	drv, err := lib.StartDriver(f.Driver)
 	if err != nil {
-		res.Note("codec: driver: %v", err)
+		res.Fatalf("codec: driver: %v", err)
 		return
 	}
 	defer drv.Close()
@@ -345,7 +345,7 @@ func runCodec(f lib.Flags, res *lib.Result, shard, shards int, root string) {
 			}
 			s, err := makeSample(root, w.name, 3, e, false)
 			if err != nil {
-				res.Note("codec sample %s: %v", w.name, err)
+				res.Fatalf("codec sample %s: %v", w.name, err)
 				break
 			}
 			s.small = w.small
@@ -357,7 +357,7 @@ func runCodec(f lib.Flags, res *lib.Result, shard, shards int, root string) {
 		s.small = true
 		samples = append(samples, s)
 	} else {
-		res.Note("codec sample prune: %v", err)
+		res.Fatalf("codec sample prune: %v", err)
 	}
 
 	turn := 0
